@@ -84,21 +84,38 @@ def is_panic_check(c):
         and bool(PANIC_PAT.search(c.get('description', '')))
 
 
-def playback(crate, harness, prefix='', timeout=900):
+def playback(crate, harness, prefix='', timeout=900, want=None):
     """Re-run one failing harness with concrete playback; return (values, raw text).
-    values = list of byte lists in kani::any() order."""
+    values = list of byte lists in kani::any() order, taken from the test Kani prints for the
+    failing check whose description contains `want` (else the first failing assertion)."""
     cmd = ['cargo', 'kani', '-Z', 'function-contracts', '-Z', 'stubbing', '-Z', 'concrete-playback',
-           '--concrete-playback=print', '--no-assertion-reach-checks', '--exact', '--harness', prefix + harness]
+           '--concrete-playback=print', '--no-assertion-reach-checks', '--exact', '--harness', prefix + harness,
+           '--target-dir', os.path.join(crate, 'target_playback_%d' % os.getpid())]
     try:
         p = subprocess.run(cmd, cwd=crate, env=env_offline(), capture_output=True, text=True, timeout=timeout)
     except subprocess.TimeoutExpired:
         return None, 'concrete playback timed out'
+    finally:
+        import shutil
+        shutil.rmtree(os.path.join(crate, 'target_playback_%d' % os.getpid()), ignore_errors=True)
     txt = p.stdout + p.stderr
-    m = re.search(r'let concrete_vals: Vec<Vec<u8>> = vec!\[(.*?)\];', txt, re.S)
-    if not m:
+    blocks = []
+    for m in re.finditer(r'/// Check for `(\w+)`: "(.*?)"\s*\n(.*?)let concrete_vals: Vec<Vec<u8>> = vec!\[(.*?)\];', txt, re.S):
+        blocks.append((m.group(1), m.group(2), m.group(4)))
+    pick = None
+    for kind, d, body in blocks:
+        if kind != 'cover' and want and want[:60] in d:
+            pick = body
+            break
+    if pick is None:
+        for kind, d, body in blocks:
+            if kind != 'cover':
+                pick = body
+                break
+    if pick is None:
         return None, txt[-6000:]
     vals = []
-    for vm in re.finditer(r'vec!\[([0-9,\s]*)\]', m.group(1)):
+    for vm in re.finditer(r'vec!\[([0-9,\s]*)\]', pick):
         body = vm.group(1).strip()
         vals.append([int(x) for x in body.split(',') if x.strip()] if body else [])
     return vals, txt[-12000:]
